@@ -31,6 +31,8 @@ rc1, out1 = sh(demo_cmd, wt); note("demo_with_change", "pass" if rc1 == 0 else "
 meta["demo_output_with_change"] = out1[-1500:]
 for d in demos: os.remove(os.path.join(wt, os.path.basename(d)))
 suite = "n/a"
+try: suite = json.load(open("/verif/seeded/%s-%s/meta.json" % (pid, x))).get("suite_with_change", "n/a")  # keep an earlier confirmation
+except Exception: pass
 if os.environ.get("SEED_SUITE", "1") == "1":
     for attempt in range(3):
         rcs, outs = sh("go test -vet=off -count=1 -timeout 25m . ./h2spec", wt, timeout=2400)
